@@ -45,6 +45,8 @@ pub(crate) struct Loop {
     pub start_ip: usize,
     // Placeholders for jumps to the end of the loop, updated when the loop compilation is complete
     pub jump_placeholders: Vec<usize>,
+    // The number of try blocks that were active when the loop was entered
+    pub active_try_blocks: usize,
 }
 
 #[derive(Clone, Debug, PartialEq)]
@@ -69,6 +71,8 @@ pub(crate) enum Arg {
 #[derive(Clone, Debug, Default)]
 pub(crate) struct Frame {
     loop_stack: Vec<Loop>,
+    // The number of try blocks that are currently being compiled (i.e. with an active catch point)
+    pub active_try_blocks: usize,
     register_stack: Vec<u8>,
     local_registers: Vec<LocalRegister>,
     exported_ids: HashSet<ConstantIndex>,
@@ -337,6 +341,7 @@ impl Frame {
             start_ip: loop_start_ip,
             result_register,
             jump_placeholders: Vec::new(),
+            active_try_blocks: self.active_try_blocks,
         });
     }
 
